@@ -1,7 +1,7 @@
 (* C12 interval checker: completeness (no false alarm).
    If SOME choice of instants inside the recorded brackets makes the reference semantics (Spec.sstep) return
    exactly what was observed, the checker accepts the trace. *)
-From VF Require Import Common.Base C12.Model C12.Spec C12.Proofs C12.Proofs2 C12.Interval.
+From VF Require Import Common.Base C12.Model C12.Spec C12.Proofs C12.Proofs2 C12.F64 C12.Interval.
 From Coq Require Import Sorting.Sorted.
 Local Open Scope Z_scope.
 
@@ -109,6 +109,7 @@ Variable fl : Z -> Z.
 Variable g defttl : Z.
 Hypothesis fl_mono : forall x y, x <= y -> fl x <= fl y.
 Hypothesis fl_nonneg : forall x, 0 <= x -> 0 <= fl x.
+Hypothesis fl_neg : forall x, x < 0 -> fl x < 0.
 Hypothesis fl_near : forall x, - g <= 2 * (fl x - x) <= g.
 
 Lemma asweep_key a b p q : asweep_ent g a b p = Some q -> fst q = fst p.
@@ -116,7 +117,7 @@ Proof.
   unfold asweep_ent. destruct (wild (snd p)); [intros H; inversion H; auto|].
   destruct (ar (snd p)) as [|L U]; [intros H; inversion H; auto|].
   destruct ((0 <=? L) && (U <=? a)); [discriminate|].
-  destruct (b + g <? L); intros H; inversion H; auto.
+  destruct ((b + g <? L) || (U <? 0)); intros H; inversion H; auto.
 Qed.
 
 Lemma In_filter_map_sweep a b abs q :
@@ -212,12 +213,19 @@ Proof.
   - rewrite !Z.leb_refl. destruct (Z.eqb_spec d 0); [contradiction|reflexivity].
 Qed.
 
-Lemma in_range_new a b t ttl : 0 < a -> a <= t <= b ->
-  in_range_b (new_expire defttl t ttl) (new_range defttl a b ttl) = true.
+Lemma fits_new v a b t ttl : 0 < a -> a <= t <= b ->
+  fits (new_aent defttl v a b ttl) v (new_expire defttl t ttl) = true.
 Proof.
-  intros Ha Ht. unfold new_expire, new_range. destruct (eff_ttl defttl ttl) as [x|] eqn:E; simpl; [|reflexivity].
-  apply eff_ttl_pos in E. destruct (Z.eqb_spec (t + x) 0); [lia|]. simpl.
-  apply andb_true_iff. split; apply Z.leb_le; lia.
+  intros Ha Ht. unfold new_aent, new_range, new_expire.
+  destruct (eff_ttl defttl ttl) as [x|] eqn:E; [|apply fits_intro; reflexivity].
+  apply eff_ttl_pos in E. pose proof M63_pos as Hm. pose proof M64_M63 as Hm2.
+  destruct (Z.ltb_spec (b + x) M63) as [H1|H1].
+  - rewrite wrap64_id by lia. apply fits_intro; [reflexivity|]. simpl.
+    destruct (Z.eqb_spec (t + x) 0); [lia|]. simpl. apply andb_true_iff. split; apply Z.leb_le; lia.
+  - destruct (Z.leb_spec M63 (a + x)) as [H2|H2]; [|reflexivity].
+    destruct (Z.ltb_spec (b + x) M64) as [H3|H3]; [|reflexivity]. cbn [andb].
+    rewrite wrap64_once by lia. apply fits_intro; [reflexivity|]. simpl.
+    destruct (Z.eqb_spec (t + x - M64) 0); [lia|]. simpl. apply andb_true_iff. split; apply Z.leb_le; lia.
 Qed.
 
 Lemma miss_ok_absent abs conc k b : G abs conc -> m_get conc k = None -> miss_ok abs k b = true.
@@ -236,8 +244,8 @@ Proof.
   unfold expired in Hex. apply andb_true_iff in Hex as [E1 E2]. apply Z.ltb_lt in E1, E2.
   unfold may_expired. destruct (ar ae) as [|L U]; simpl in Hr.
   - apply Z.eqb_eq in Hr. lia.
-  - apply andb_true_iff in Hr as [Hr _]. apply andb_true_iff in Hr as [_ Hr]. apply Z.leb_le in Hr.
-    apply Z.ltb_lt. lia.
+  - apply andb_true_iff in Hr as [Hr Hu]. apply andb_true_iff in Hr as [_ Hr]. apply Z.leb_le in Hr, Hu.
+    apply andb_true_iff. split; apply Z.ltb_lt; lia.
 Qed.
 
 Lemma absent_ok_absent abs conc k : G abs conc -> m_get conc k = None -> absent_ok abs k = true.
@@ -282,7 +290,7 @@ Proof.
         assert (F1 : 0 <= fl d) by (apply fl_nonneg; lia).
         assert (F2 : fl d <= fl t) by (apply fl_mono; lia).
         apply andb_false_iff in Es as [Es|Es]; [apply Z.leb_gt in Es|apply Z.leb_gt in Es]; lia.
-      * destruct (b + g <? L); simpl.
+      * destruct ((b + g <? L) || (U <? 0)); simpl.
         -- exists ae. auto.
         -- eexists. split; [reflexivity|]. apply fits_intro; simpl; auto.
   - intros k ae'. rewrite m_get_sweep by exact H1.
@@ -296,7 +304,7 @@ Proof.
       rewrite Er in Hr. simpl in Hr. apply Z.eqb_eq in Hr. subst d.
       exists (v, 0). rewrite m_get_filter by exact H2. rewrite Hc. reflexivity.
     + destruct ((0 <=? L) && (U <=? a)); [discriminate|].
-      destruct (Z.ltb_spec (b + g) L) as [Hk|Hk]; simpl.
+      destruct ((b + g <? L) || (U <? 0)) eqn:Hk; simpl.
       * intros H Hp; inversion H; subst ae'. destruct (H4 k ae Ea Hp) as ([v d] & Hc).
         destruct (H3 k v d Hc) as (ae2 & Ha2 & Hf). rewrite Ea in Ha2. inversion Ha2; subst ae2.
         destruct (fits_nonwild ae v d Hw Hf) as [_ Hr].
@@ -304,8 +312,11 @@ Proof.
         apply Z.leb_le in Q1, Q2.
         exists (v, d). rewrite m_get_filter by exact H2. rewrite Hc. simpl.
         assert (Es : swept fl t d = false).
-        { unfold swept. destruct (fl d <=? fl t) eqn:E3; [|now rewrite andb_false_r].
-          exfalso. apply Z.leb_le in E3. pose proof (fl_near d). pose proof (fl_near t). lia. }
+        { unfold swept. apply orb_true_iff in Hk as [Hk|Hk]; apply Z.ltb_lt in Hk.
+          - destruct (fl d <=? fl t) eqn:E3; [|now rewrite andb_false_r].
+            exfalso. apply Z.leb_le in E3. pose proof (fl_near d). pose proof (fl_near t). lia.
+          - pose proof (fl_neg d ltac:(lia)) as Hn. destruct (Z.leb_spec 0 (fl d)); [lia|].
+            now rewrite andb_false_r. }
         now rewrite Es.
       * intros H Hp; inversion H; subst ae'. simpl in Hp. discriminate.
 Qed.
@@ -417,21 +428,21 @@ Lemma astep_complete abs conc s t :
 Proof.
   intros HG Ha Ht Hout. unfold astep. rewrite <- Hout. clear Hout.
   destruct (t_op s) as [k v ttl|k v ttl|k v ttl|k|k| | | | |data|data]; simpl.
-  - eexists; split; [reflexivity|]. apply G_put; auto. apply fits_intro; [reflexivity|now apply in_range_new].
+  - eexists; split; [reflexivity|]. apply G_put; auto. now apply fits_new.
   - destruct (m_get conc k) as [[v0 d0]|] eqn:Ec; simpl.
     + pose proof HG as (_ & _ & H3 & _). destruct (H3 k v0 d0 Ec) as (ae & Hae & Hf). rewrite Hae.
       destruct (wild ae) eqn:Hw; [eexists; split; [reflexivity|exact HG]|].
       eexists; split; [reflexivity|]. eapply G_refine; eauto.
       destruct (fits_nonwild ae v0 d0 Hw Hf) as [Hv Hr]. now apply fits_intro.
     + rewrite (absent_ok_absent abs conc k HG Ec). eexists; split; [reflexivity|].
-      apply G_put; auto. apply fits_intro; [reflexivity|now apply in_range_new].
+      apply G_put; auto. now apply fits_new.
   - destruct (m_get conc k) as [[v0 d0]|] eqn:Ec; simpl.
     + destruct (expired t d0) eqn:Ex; simpl.
       * rewrite (miss_ok_expired abs conc k v0 d0 t (t_b s) HG Ec Ex (proj2 Ht)).
         eexists; split; [reflexivity|]. now apply G_del.
       * pose proof HG as (_ & _ & H3 & _). destruct (H3 k v0 d0 Ec) as (ae & Hae & Hf). rewrite Hae.
         rewrite (wild_or_live ae v0 d0 t (t_a s) Hf Ex (proj1 Ht)).
-        eexists; split; [reflexivity|]. apply G_put; auto. apply fits_intro; [reflexivity|now apply in_range_new].
+        eexists; split; [reflexivity|]. apply G_put; auto. now apply fits_new.
     + rewrite (miss_ok_absent abs conc k (t_b s) HG Ec). eexists; split; [reflexivity|].
       rewrite <- (m_del_absent k conc Ec). now apply G_del.
   - eexists; split; [reflexivity|]. now apply G_del.
@@ -439,12 +450,22 @@ Proof.
     + destruct (expired t d0) eqn:Ex; simpl.
       * rewrite (miss_ok_expired abs conc k v0 d0 t (t_b s) HG Ec Ex (proj2 Ht)).
         eexists; split; [reflexivity|]. now apply G_del.
-      * pose proof HG as (_ & _ & H3 & _). destruct (H3 k v0 d0 Ec) as (ae & Hae & Hf). rewrite Hae, Hf. simpl.
-        assert (Hlive : ((d0 <=? 0) || (t_a s <=? d0))%bool = true).
-        { unfold expired in Ex. apply orb_true_iff.
-          apply andb_false_iff in Ex as [E|E]; apply Z.ltb_ge in E; [left|right]; apply Z.leb_le; lia. }
-        rewrite Hlive. eexists; split; [reflexivity|].
-        eapply G_refine; eauto. apply fits_intro; [reflexivity|apply in_range_exact].
+      * pose proof HG as (_ & _ & H3 & _). destruct (H3 k v0 d0 Ec) as (ae & Hae & Hf). rewrite Hae.
+        unfold shown. destruct (Z.ltb_spec 0 d0) as [Hpos|Hnp].
+        -- assert (Hp0 : (0 <? d0) = true) by (apply Z.ltb_lt; lia). rewrite Hp0, Hf. assert (Hlive : (t_a s <=? d0) = true).
+           { unfold expired in Ex. apply Z.leb_le.
+             apply andb_false_iff in Ex as [E|E]; apply Z.ltb_ge in E; lia. }
+           rewrite Hlive. simpl. eexists; split; [reflexivity|].
+           eapply G_refine; eauto. apply fits_intro; [reflexivity|apply in_range_exact].
+        -- cbn [Z.ltb Z.compare]. rewrite Z.eqb_refl.
+           destruct (wild ae) eqn:Hw; [eexists; split; [reflexivity|exact HG]|].
+           destruct (fits_nonwild ae v0 d0 Hw Hf) as [Hv Hr]. rewrite Hv, Z.eqb_refl.
+           assert (Hnp' : nonpos_ok (ar ae) = true).
+           { destruct (ar ae) as [|L U]; [reflexivity|]. simpl in Hr. simpl.
+             apply andb_true_iff in Hr as [Hr _]. apply andb_true_iff in Hr as [Q0 Q1].
+             apply negb_true_iff, Z.eqb_neq in Q0. apply Z.leb_le in Q1. apply Z.ltb_lt. lia. }
+           rewrite Hnp'. simpl. eexists; split; [reflexivity|].
+           eapply G_refine; eauto. apply fits_intro; [reflexivity|exact Hr].
     + rewrite (miss_ok_absent abs conc k (t_b s) HG Ec). eexists; split; [reflexivity|].
       rewrite <- (m_del_absent k conc Ec). now apply G_del.
   - rewrite (count_ok abs conc HG). eexists; split; [reflexivity|exact HG].
